@@ -489,13 +489,18 @@ def decrc (e : Emu) : Emu :=
            mode := { e.mode with decawm := st.decawm, decom := st.decom },
            lastCol := false }
 
-def ris (e : Emu) : Emu :=
+def risF (fx : Fixes) (e : Emu) : Emu :=
   let w := e.width
   let h := e.height
   { e with alt := blankGrid w.toNat h.toNat, primary := blankGrid w.toNat h.toNat,
-           bottom := h - 1, right := w - 1,
-           cur := { e.cur with row := 0, col := 0 }, lastCol := false, altActive := false,
+           top := if fx.f106e then 0 else e.top, bottom := h - 1, right := w - 1,
+           cur := { e.cur with row := 0, col := 0, st := if fx.f106e then {} else e.cur.st },
+           savedP := if fx.f106e then {} else e.savedP, savedA := if fx.f106e then {} else e.savedA,
+           lastCol := false, altActive := false,
            cs := {}, mode := { decawm := true, dectcem := true }, tabs := defaultTabs }
+
+/-- ris() as it is now -/
+def ris (e : Emu) : Emu := risF Fixes.current e
 
 def hts (e : Emu) : Emu := { e with tabs := e.tabs ++ [e.cur.col] }
 
@@ -781,7 +786,7 @@ def esc (fx : Fixes) (e : Emu) (label : List Nat) : M Emu :=
     | .arm_4f => .ok { e with cs := { e.cs with ss := true, sel := 3 } }
     | .arm_3d => .ok { e with mode := { e.mode with deckpam := true, deckpnm := false } }
     | .arm_3e => .ok { e with mode := { e.mode with deckpnm := true, deckpam := false } }
-    | .ris => .ok (ris e)
+    | .ris => .ok (risF fx e)
     | .arm_2830 => .ok { e with cs := { e.cs with g0 := 1 } }
     | .arm_2930 => .ok { e with cs := { e.cs with g1 := 1 } }
     | .arm_2a30 => .ok { e with cs := { e.cs with g2 := 1 } }
